@@ -74,7 +74,7 @@ class Rig(object):
         return dict(cl=cl, nrq=len(self.L._tco.recv_queue), acc=acc, ab=self.pw(self.ab), ba=self.pw(self.ba))
 
     def log(self, a, **kw):
-        rec = dict(a=a, c="-", i=0, post=self.proj())
+        rec = dict(a=a, c="-", i=0, sent=0, got=0, post=self.proj())
         rec.update(kw)
         self.ev.append(rec)
 
@@ -142,7 +142,7 @@ class Rig(object):
             d = s._tco
             while d.state.ESTABLISHED and c not in self.thr and len(d.recv_queue) > 0 and d.recv_queue[0].name == "I":
                 got = s.recv()
-                if got != b"early":
+                if not got.startswith(b"early"):
                     raise HarnessError("early data corrupted: %r" % (got,))
                 self.early_got = getattr(self, "early_got", 0) + 1
         self.drain(self.A, self.ab)
@@ -169,6 +169,43 @@ class Rig(object):
         a.send(b"early", nfc.llcp.MSG_DONTWAIT)
         self.drain(self.B, self.ba)
         self.log("AcceptSend")
+
+    def greeting(self):
+        """accept(), send as many messages as the window takes, hand every resulting frame to A back to back while the
+        connecting thread has not run yet, then let connect() return and read: sent/got go into one Greeting event"""
+        a = self.L.accept()
+        self.acc.append(a)
+        sent = 0
+        for k in range(20):
+            try:
+                a.send(b"early%02d" % k, nfc.llcp.MSG_DONTWAIT)
+                sent += 1
+            except err_mod.Error:
+                break
+        c = [x for x in self.thr if self.cl[x]._tco.addr == a._tco.peer][0]
+        def pump(src, dst):
+            n = 0
+            for _ in range(64):
+                f = src.collect()
+                if f is None:
+                    break
+                dst.dispatch(pdu_mod.decode(pdu_mod.encode(f)))
+                n += 1
+            return n
+        pump(self.B, self.A)                   # CC and the I PDUs, no application thread in between
+        self.thr[c].join(10)
+        self.reap()
+        got = 0
+        s = self.cl[c]
+        for _ in range(40):                    # read, acknowledge, let the rest of the window follow, until quiet
+            while s._tco.state.ESTABLISHED and s.poll("recv", 0.02):
+                d = s.recv()
+                if d != b"early%02d" % got:
+                    raise HarnessError("early data out of order or corrupted: %r" % (d,))
+                got += 1
+            if pump(self.A, self.B) + pump(self.B, self.A) == 0:
+                break
+        self.log("Greeting", sent=sent, got=got)
 
     def close_client(self, c):
         s = self.cl[c]
@@ -236,6 +273,10 @@ def run_conn(seed, listener=True):
                 opts.append(("accept",))
                 if seed % 2 == 0:
                     opts.append(("accept_send",))
+                if seed % 3 == 0 and not R.ab and not R.ba:
+                    head = R.L._tco.recv_queue[0]
+                    if any(R.cl[c]._tco.addr == head.ssap and R.cl[c]._tco.state.CONNECT for c in R.thr):
+                        opts += [("greeting",)] * 3
             for i, a in enumerate(R.acc):
                 d = a._tco
                 if d.state.ESTABLISHED and ("a", i) not in R.closing and rnd.random() < 0.5:
